@@ -304,36 +304,97 @@ Proof.
   destruct (h =? n); [reflexivity|]. destruct (f_origs f); [reflexivity|]. destruct (f_news f); reflexivity.
 Qed.
 
-Lemma eff_ppr : forall f h n, f_head f = Some h -> (f_wl_pending f && negb (h =? n)) = false ->
-  effects f (ppr_events f h n) =
-  if h =? n then [] else match f_origs f, f_news f with
-                         | [], _ => [] | _, [] => [] | os, ns => [ERebaseComplete h n false os ns] end.
+Lemma quiet_step : forall rs fi st, quiet_noise fi = true -> s_mask st = false ->
+  hook_step rs false st fi = ([], st).
 Proof.
-  intros f h n Hh Hw. unfold ppr_events. destruct (h =? n) eqn:E; [reflexivity|].
-  change (ERenameWorkingLog h n :: ?l) with ([ERenameWorkingLog h n] ++ l). rewrite effects_app.
-  assert (effects f [ERenameWorkingLog h n] = []) as ->.
-  { unfold effects, live. cbn. rewrite Hh. cbn. rewrite N.eqb_refl, E. cbn [negb andb] in *. rewrite andb_true_r in Hw.
-    rewrite Hw. reflexivity. }
-  cbn [app]. destruct (f_origs f); [reflexivity|]. destruct (f_news f); reflexivity.
+  intros rs fi st Hq Hm. destruct fi as [n a e]. unfold quiet_noise in Hq. cbn in Hq.
+  apply andb_prop in Hq. destruct Hq as [Hrb Hn].
+  unfold hook_step. cbn [h_name h_env h_args]. rewrite Hm. cbn [andb].
+  destruct n; try discriminate; unfold requires_lookup; cbn [h_name h_env h_args]; rewrite ?Hrb; cbn; try reflexivity.
+  destruct a; try discriminate. destruct stash_upd; try discriminate. apply negb_true_iff in Hn. rewrite Hn.
+  destruct ph; cbn; rewrite ?Hrb; reflexivity.
 Qed.
+
+Lemma quiet_inert : forall rs noise st, forallb quiet_noise noise = true -> s_mask st = false ->
+  hook_run rs false noise st = ([], st).
+Proof.
+  induction noise; intros st H Hm; cbn [hook_run]; [reflexivity|].
+  cbn in H. apply andb_prop in H. destruct H as [H1 H2].
+  rewrite quiet_step by assumption. rewrite IHnoise by assumption. reflexivity.
+Qed.
+
+Definition rc_part (f : outcome_facts) (h n : sha) : list core_event :=
+  match f_origs f, f_news f with
+  | [], _ => [] | _, [] => [] | os, ns => [ERebaseComplete h n false os ns]
+  end.
+
+Lemma eff_rc_part : forall f h n, effects f (rc_part f h n) = rc_part f h n.
+Proof. intros. unfold rc_part. destruct (f_origs f); [reflexivity|]. destruct (f_news f); reflexivity. Qed.
+
+Lemma ppr_split : forall f h n, ppr_events f h n = if h =? n then [] else [ERenameWorkingLog h n] ++ rc_part f h n.
+Proof.
+  intros. unfold ppr_events, rc_part. destruct (h =? n); [reflexivity|].
+  destruct (f_origs f); [reflexivity|]. destruct (f_news f); reflexivity.
+Qed.
+
+(* hooks side: the rename is an effect exactly when a working log is pending *)
+Lemma eff_ppr : forall f h n, f_head f = Some h ->
+  effects f (ppr_events f h n) =
+  if h =? n then [] else (if f_wl_pending f then [ERenameWorkingLog h n] else []) ++ rc_part f h n.
+Proof.
+  intros f h n Hh. rewrite ppr_split. destruct (h =? n) eqn:E; [reflexivity|].
+  rewrite effects_app, eff_rc_part. f_equal.
+  unfold effects, live. cbn. rewrite Hh. cbn. rewrite N.eqb_refl, E. cbn.
+  destruct (f_wl_pending f); reflexivity.
+Qed.
+
+(* wrapper side *)
+Lemma eff_wrap_pull : forall f h n, f_exit_ok f = true -> f_head f = Some h -> f_head_after f = Some n ->
+  effects f (wrap_pull true f) =
+  if h =? n then []
+  else (if f_autostash_va f then [if f_upstream_touches_pending f then ERestoreStashedVA h n else ERenameWorkingLog h n] else [])
+       ++ rc_part f h n.
+Proof.
+  intros f h n Hok Hh Hn. unfold wrap_pull. rewrite Hok, Hh, Hn. cbn [negb].
+  destruct (h =? n); [reflexivity|]. cbn [negb].
+  rewrite effects_app. fold (rc_part f h n). rewrite eff_rc_part. f_equal.
+  destruct (f_autostash_va f); [|reflexivity]. unfold effects. cbn. destruct (f_upstream_touches_pending f); reflexivity.
+Qed.
+
+Lemma pull_agree : forall f h n, f_head f = Some h ->
+  (f_wl_pending f && negb (h =? n) && negb (f_autostash_va f)) = false ->
+  (f_autostash_va f && f_upstream_touches_pending f) = false ->
+  (negb (f_autostash_va f) || f_wl_pending f) = true ->
+  (if h =? n then [] else (if f_wl_pending f then [ERenameWorkingLog h n] else []) ++ rc_part f h n) =
+  (if h =? n then []
+   else (if f_autostash_va f then [if f_upstream_touches_pending f then ERestoreStashedVA h n else ERenameWorkingLog h n] else [])
+        ++ rc_part f h n).
+Proof.
+  intros f h n Hh H1 H2 H3. destruct (h =? n); [reflexivity|]. cbn [negb] in H1. rewrite andb_true_r in H1.
+  destruct (f_wl_pending f), (f_autostash_va f), (f_upstream_touches_pending f); cbn in *; try discriminate; reflexivity.
+Qed.
+
+Ltac pull_wf Hwf :=
+  apply andb_prop in Hwf; destruct Hwf as [_ Hwf];
+  apply andb_prop in Hwf; destruct Hwf as [Hwf Hok]; apply andb_prop in Hwf; destruct Hwf as [Hwf Hva];
+  apply andb_prop in Hwf; destruct Hwf as [Hwf Hpn];
+  apply andb_prop in Hwf; destruct Hwf as [Hwf Hnzu]; apply andb_prop in Hwf; destruct Hwf as [Hwf Hnoise];
+  apply andb_prop in Hwf; destruct Hwf as [Hnip Hnipa]; apply negb_true_iff in Hnipa.
 
 Lemma same_CPullRebase : forall f, stmt CPullRebase f.
 Proof.
   intros f Hwf HK. unfold stmt, wf_firing, Known_C13 in *.
-  apply andb_prop in Hwf; destruct Hwf as [_ Hwf].
   destruct (f_exit_ok f) eqn:Eok;
     [|unfold hook_events, git_fires, wrap_events, wrap_pull; cbn [has_pre has_post command_of existsb]; rewrite Eok; reflexivity].
   destruct (f_head f) as [h|] eqn:Eh; [|cbn in Hwf; rewrite ?andb_false_r in Hwf; discriminate].
   destruct (f_head_after f) as [n|] eqn:En; [|cbn in Hwf; rewrite ?andb_false_r in Hwf; discriminate].
   destruct (f_co_head f) as [u|] eqn:Eu; [|cbn in Hwf; rewrite ?andb_false_r in Hwf; discriminate].
-  apply andb_prop in Hwf; destruct Hwf as [Hwf Hok]. apply andb_prop in Hwf; destruct Hwf as [Hwf Hpn].
-  apply andb_prop in Hwf; destruct Hwf as [Hwf Hnzu]. apply andb_prop in Hwf; destruct Hwf as [Hwf Hnoise].
-  apply andb_prop in Hwf; destruct Hwf as [Hnip Hnipa]. apply negb_true_iff in Hnipa.
+  pull_wf Hwf.
   unfold hook_events, git_fires, pre_state, wrap_events. cbn [has_pre has_post command_of existsb].
   change (negb _) with false at 1. cbn iota. rewrite Eok. cbn [negb orb andb is_some] in Hok, HK.
-  apply orb_false_elim in HK. destruct HK as [HKwl HKp].
+  apply orb_false_elim in HK. destruct HK as [HK HKp]. apply orb_false_elim in HK. destruct HK as [HKwl HKva].
   unfold opt_eqb in HKwl, HKp, Hok.
-  unfold wrap_pull. rewrite Eok, Eh, En. cbn [negb].
+  rewrite (eff_wrap_pull f h n Eok Eh En).
   unfold fires_rebase_start.
   destruct (f_uptodate f) eqn:Eutd.
   - cbn [hook_run fst]. cbn [negb orb andb] in Hok.
@@ -343,33 +404,25 @@ Proof.
     rewrite hook_run_app.
     change (hook_run rewrite_stash_default_debug false [_; _] init) with (hook_run rewrite_stash_default_debug false [pull_pre f; pull_co f] init).
     destruct (f_picks f) as [|p ps] eqn:Epk.
-    + destruct (f_noise f) eqn:Eno; [|discriminate].
-      erewrite pull_prefix_nil by eassumption. unfold rebase_tail, tail_end. rewrite Eno, Epk, Hnipa. cbn [app hook_run fst].
-      rewrite app_nil_r. cbn [negb andb] in HKp. apply negb_false_iff in HKp. apply N.eqb_eq in HKp. subst u.
-      rewrite eff_ppr by assumption.
-      destruct (h =? n); [reflexivity|]. destruct (f_origs f); [reflexivity|]. destruct (f_news f); reflexivity.
+    + erewrite pull_prefix_nil by eassumption. unfold rebase_tail, tail_end. rewrite Epk, Hnipa. rewrite app_nil_r.
+      rewrite quiet_inert by (assumption || reflexivity). cbn [fst]. rewrite app_nil_r.
+      cbn [negb andb] in HKp. apply negb_false_iff in HKp. apply N.eqb_eq in HKp. subst u.
+      rewrite eff_ppr by assumption. apply pull_agree; assumption.
     + erewrite pull_prefix by eassumption.
       rewrite tail_run by (assumption || reflexivity).
       erewrite pull_final by eassumption. cbn [app fst].
-      rewrite eff_ppr by assumption.
-      destruct (h =? n); [reflexivity|]. destruct (f_origs f); [reflexivity|]. destruct (f_news f); reflexivity.
+      rewrite eff_ppr by assumption. apply pull_agree; assumption.
 Qed.
 
 Lemma state_CPullRebase : forall f, stmt2 CPullRebase f.
 Proof.
   intros f Hwf HK _. unfold stmt2, wf_firing, Known_C13 in *.
-  apply andb_prop in Hwf; destruct Hwf as [_ Hwf].
-  destruct (f_exit_ok f) eqn:Eok;
-    [|unfold hook_events, git_fires, post_state; rewrite Eok; apply andb_prop in Hwf; destruct Hwf as [Hwf _];
-      apply andb_prop in Hwf; destruct Hwf as [Hwf _]; apply andb_prop in Hwf; destruct Hwf as [Hwf _];
-      apply andb_prop in Hwf; destruct Hwf as [Hwf _]; apply andb_prop in Hwf; destruct Hwf as [_ Hnipa];
-      apply negb_true_iff in Hnipa; rewrite Hnipa; reflexivity].
+  destruct (f_exit_ok f) eqn:Eok.
+  2:{ unfold hook_events, git_fires, post_state. rewrite Eok. pull_wf Hwf. rewrite Hnipa. reflexivity. }
   destruct (f_head f) as [h|] eqn:Eh; [|cbn in Hwf; rewrite ?andb_false_r in Hwf; discriminate].
   destruct (f_head_after f) as [n|] eqn:En; [|cbn in Hwf; rewrite ?andb_false_r in Hwf; discriminate].
   destruct (f_co_head f) as [u|] eqn:Eu; [|cbn in Hwf; rewrite ?andb_false_r in Hwf; discriminate].
-  apply andb_prop in Hwf; destruct Hwf as [Hwf Hok]. apply andb_prop in Hwf; destruct Hwf as [Hwf Hpn].
-  apply andb_prop in Hwf; destruct Hwf as [Hwf Hnzu]. apply andb_prop in Hwf; destruct Hwf as [Hwf Hnoise].
-  apply andb_prop in Hwf; destruct Hwf as [Hnip Hnipa]. apply negb_true_iff in Hnipa.
+  pull_wf Hwf.
   unfold hook_events, git_fires, pre_state, post_state. rewrite Eok, Hnipa.
   unfold fires_rebase_start.
   destruct (f_uptodate f) eqn:Eutd; [reflexivity|].
@@ -377,8 +430,8 @@ Proof.
   rewrite hook_run_app.
   change (hook_run rewrite_stash_default_debug false [_; _] init) with (hook_run rewrite_stash_default_debug false [pull_pre f; pull_co f] init).
   destruct (f_picks f) as [|p ps] eqn:Epk.
-  - destruct (f_noise f) eqn:Eno; [|discriminate].
-    erewrite pull_prefix_nil by eassumption. unfold rebase_tail, tail_end. rewrite Eno, Epk, Hnipa. reflexivity.
+  - erewrite pull_prefix_nil by eassumption. unfold rebase_tail, tail_end. rewrite Epk, Hnipa. rewrite app_nil_r.
+    rewrite quiet_inert by (assumption || reflexivity). reflexivity.
   - erewrite pull_prefix by eassumption.
     rewrite tail_run by (assumption || reflexivity).
     erewrite pull_final by eassumption. reflexivity.
@@ -481,80 +534,80 @@ Lemma override_covers_all : forall c, existsb (git_command_eqb (command_of c)) c
 Proof. destruct c; reflexivity. Qed.
 
 (* ------------------------------------------------------------------ witnesses of the known differences *)
-Definition wit_K1_abort : outcome_facts := (mkFacts (Some 10) (Some 10) (Some 9) false true false None true false true (Some 10) [] None None None None false [] [] [] [] [] [] None true false None 0%nat 0%nat None None true false false false false).
+Definition wit_K1_abort : outcome_facts := (mkFacts (Some 10) (Some 10) (Some 9) false true false None true false true (Some 10) [] None None None None false [] [] [] [] [] [] None true false None 0%nat 0%nat None None true false false false false false false).
 Lemma refuted_K1_abort : wf_firing CRebaseAbort wit_K1_abort = true /\ Known_C13 CRebaseAbort wit_K1_abort = false /\ leaks CRebaseAbort wit_K1_abort = true /\
   s_mask (snd (hook_events (git_fires CRebaseAbort wit_K1_abort) (pre_state CRebaseAbort))) = true /\ s_mask (post_state wit_K1_abort CRebaseAbort) = false.
 Proof. repeat (split; [vm_compute; reflexivity|]). vm_compute; reflexivity. Qed.
-Definition wit_K1_ff : outcome_facts := (mkFacts (Some 10) (Some 20) (Some 9) false true false None false false false None [] None (Some 20) (Some 20) None false [] [] [] [] [] [] None true false None 0%nat 0%nat None None true false false false false).
+Definition wit_K1_ff : outcome_facts := (mkFacts (Some 10) (Some 20) (Some 9) false true false None false false false None [] None (Some 20) (Some 20) None false [] [] [] [] [] [] None true false None 0%nat 0%nat None None true false false false false false false).
 Lemma refuted_K1_ff : wf_firing CRebase wit_K1_ff = true /\ Known_C13 CRebase wit_K1_ff = false /\ leaks CRebase wit_K1_ff = true /\
   s_mask (snd (hook_events (git_fires CRebase wit_K1_ff) (pre_state CRebase))) = true /\ s_mask (post_state wit_K1_ff CRebase) = false.
 Proof. repeat (split; [vm_compute; reflexivity|]). vm_compute; reflexivity. Qed.
-Definition wit_K2_drop : outcome_facts := (mkFacts (Some 12) (Some 21) (Some 9) false true false None false false false None [] None (Some 5) (Some 5) None false [(11, 21)] [11; 12] [21] [] [] [] None true false None 0%nat 0%nat None None true false false false false).
+Definition wit_K2_drop : outcome_facts := (mkFacts (Some 12) (Some 21) (Some 9) false true false None false false false None [] None (Some 5) (Some 5) None false [(11, 21)] [11; 12] [21] [] [] [] None true false None 0%nat 0%nat None None true false false false false false false).
 Lemma refuted_K2_drop : wf_firing CRebaseI wit_K2_drop = true /\ Known_C13 CRebaseI wit_K2_drop = true /\
   erase_shas (effects wit_K2_drop (fst (hook_events (git_fires CRebaseI wit_K2_drop) (pre_state CRebaseI)))) <>
   erase_shas (effects wit_K2_drop (wrap_events CRebaseI wit_K2_drop)).
 Proof. split; [vm_compute; reflexivity|]. split; [vm_compute; reflexivity|]. vm_compute. intro H; discriminate H. Qed.
-Definition wit_K2_squash : outcome_facts := (mkFacts (Some 12) (Some 21) (Some 9) false true false None false false false None [] None (Some 5) (Some 5) None false [(11, 21); (12, 21)] [11; 12] [21] [] [] [] None true false None 0%nat 0%nat None None true false false false false).
+Definition wit_K2_squash : outcome_facts := (mkFacts (Some 12) (Some 21) (Some 9) false true false None false false false None [] None (Some 5) (Some 5) None false [(11, 21); (12, 21)] [11; 12] [21] [] [] [] None true false None 0%nat 0%nat None None true false false false false false false).
 Lemma refuted_K2_squash : wf_firing CRebaseI wit_K2_squash = true /\ Known_C13 CRebaseI wit_K2_squash = true /\
   erase_shas (effects wit_K2_squash (fst (hook_events (git_fires CRebaseI wit_K2_squash) (pre_state CRebaseI)))) <>
   erase_shas (effects wit_K2_squash (wrap_events CRebaseI wit_K2_squash)).
 Proof. split; [vm_compute; reflexivity|]. split; [vm_compute; reflexivity|]. vm_compute. intro H; discriminate H. Qed.
-Definition wit_K3 : outcome_facts := (mkFacts (Some 10) (Some 11) (Some 10) false true true None false false false None [] None None None None false [] [] [] [] [] [] None true false None 0%nat 0%nat None None true false false false false).
+Definition wit_K3 : outcome_facts := (mkFacts (Some 10) (Some 11) (Some 10) false true true None false false false None [] None None None None false [] [] [] [] [] [] None true false None 0%nat 0%nat None None true false false false false false false).
 Lemma refuted_K3 : wf_firing CCommit wit_K3 = true /\ Known_C13 CCommit wit_K3 = true /\
   erase_shas (effects wit_K3 (fst (hook_events (git_fires CCommit wit_K3) (pre_state CCommit)))) <>
   erase_shas (effects wit_K3 (wrap_events CCommit wit_K3)).
 Proof. split; [vm_compute; reflexivity|]. split; [vm_compute; reflexivity|]. vm_compute. intro H; discriminate H. Qed.
-Definition wit_K4 : outcome_facts := (mkFacts (Some 10) (Some 22) (Some 9) false true false None false false false None [] None None None None false [] [] [21; 22] [] [31; 32] [mkMade 31 21 10 true true; mkMade 32 22 21 true true] None true false None 0%nat 0%nat None None true false false false false).
+Definition wit_K4 : outcome_facts := (mkFacts (Some 10) (Some 22) (Some 9) false true false None false false false None [] None None None None false [] [] [21; 22] [] [31; 32] [mkMade 31 21 10 true true; mkMade 32 22 21 true true] None true false None 0%nat 0%nat None None true false false false false false false).
 Lemma refuted_K4 : wf_firing CCherryPick wit_K4 = true /\ Known_C13 CCherryPick wit_K4 = true /\
   erase_shas (effects wit_K4 (fst (hook_events (git_fires CCherryPick wit_K4) (pre_state CCherryPick)))) <>
   erase_shas (effects wit_K4 (wrap_events CCherryPick wit_K4)).
 Proof. split; [vm_compute; reflexivity|]. split; [vm_compute; reflexivity|]. vm_compute. intro H; discriminate H. Qed.
-Definition wit_K5 : outcome_facts := (mkFacts (Some 10) (Some 11) (Some 10) false true false (Some 31) false false false None [] None None None None false [] [] [] [] [] [] None true false None 0%nat 0%nat None None true false false false false).
+Definition wit_K5 : outcome_facts := (mkFacts (Some 10) (Some 11) (Some 10) false true false (Some 31) false false false None [] None None None None false [] [] [] [] [] [] None true false None 0%nat 0%nat None None true false false false false false false).
 Lemma refuted_K5 : wf_firing CCommit wit_K5 = true /\ Known_C13 CCommit wit_K5 = true /\
   erase_shas (effects wit_K5 (fst (hook_events (git_fires CCommit wit_K5) (pre_state CCommit)))) <>
   erase_shas (effects wit_K5 (wrap_events CCommit wit_K5)).
 Proof. split; [vm_compute; reflexivity|]. split; [vm_compute; reflexivity|]. vm_compute. intro H; discriminate H. Qed.
-Definition wit_K6_hard_head : outcome_facts := (mkFacts (Some 10) (Some 10) (Some 9) false true false None false false false None [] None None None None false [] [] [] [] [] [] (Some 10) true false None 0%nat 0%nat None None true false false false false).
+Definition wit_K6_hard_head : outcome_facts := (mkFacts (Some 10) (Some 10) (Some 9) false true false None false false false None [] None None None None false [] [] [] [] [] [] (Some 10) true false None 0%nat 0%nat None None true false false false false false false).
 Lemma refuted_K6_hard_head : wf_firing CResetHard wit_K6_hard_head = true /\ Known_C13 CResetHard wit_K6_hard_head = true /\
   erase_shas (effects wit_K6_hard_head (fst (hook_events (git_fires CResetHard wit_K6_hard_head) (pre_state CResetHard)))) <>
   erase_shas (effects wit_K6_hard_head (wrap_events CResetHard wit_K6_hard_head)).
 Proof. split; [vm_compute; reflexivity|]. split; [vm_compute; reflexivity|]. vm_compute. intro H; discriminate H. Qed.
-Definition wit_K6_path : outcome_facts := (mkFacts (Some 10) (Some 10) (Some 9) false true false None false false false None [] None None None None false [] [] [] [] [] [] (Some 10) true false None 0%nat 0%nat None None true false false false false).
+Definition wit_K6_path : outcome_facts := (mkFacts (Some 10) (Some 10) (Some 9) false true false None false false false None [] None None None None false [] [] [] [] [] [] (Some 10) true false None 0%nat 0%nat None None true false false false false false false).
 Lemma refuted_K6_path : wf_firing CResetPath wit_K6_path = true /\ Known_C13 CResetPath wit_K6_path = true /\
   erase_shas (effects wit_K6_path (fst (hook_events (git_fires CResetPath wit_K6_path) (pre_state CResetPath)))) <>
   erase_shas (effects wit_K6_path (wrap_events CResetPath wit_K6_path)).
 Proof. split; [vm_compute; reflexivity|]. split; [vm_compute; reflexivity|]. vm_compute. intro H; discriminate H. Qed.
-Definition wit_K7 : outcome_facts := (mkFacts (Some 10) (Some 10) (Some 9) false true false None false false false None [] None None None None false [] [] [] [] [] [] None true false None 0%nat 0%nat None None true false false true false).
+Definition wit_K7 : outcome_facts := (mkFacts (Some 10) (Some 10) (Some 9) false true false None false false false None [] None None None None false [] [] [] [] [] [] None true false None 0%nat 0%nat None None true false false true false false false).
 Lemma refuted_K7 : wf_firing CCheckoutPath wit_K7 = true /\ Known_C13 CCheckoutPath wit_K7 = true /\
   erase_shas (effects wit_K7 (fst (hook_events (git_fires CCheckoutPath wit_K7) (pre_state CCheckoutPath)))) <>
   erase_shas (effects wit_K7 (wrap_events CCheckoutPath wit_K7)).
 Proof. split; [vm_compute; reflexivity|]. split; [vm_compute; reflexivity|]. vm_compute. intro H; discriminate H. Qed.
-Definition wit_K8_apply : outcome_facts := (mkFacts (Some 10) (Some 10) (Some 9) false true false None false false false None [] None None None None false [] [] [] [] [] [] None true true (Some 40) 1%nat 1%nat None None true false false false false).
+Definition wit_K8_apply : outcome_facts := (mkFacts (Some 10) (Some 10) (Some 9) false true false None false false false None [] None None None None false [] [] [] [] [] [] None true true (Some 40) 1%nat 1%nat None None true false false false false false false).
 Lemma refuted_K8_apply : wf_firing CStashApply wit_K8_apply = true /\ Known_C13 CStashApply wit_K8_apply = true /\
   erase_shas (effects wit_K8_apply (fst (hook_events (git_fires CStashApply wit_K8_apply) (pre_state CStashApply)))) <>
   erase_shas (effects wit_K8_apply (wrap_events CStashApply wit_K8_apply)).
 Proof. split; [vm_compute; reflexivity|]. split; [vm_compute; reflexivity|]. vm_compute. intro H; discriminate H. Qed.
-Definition wit_K8_pop2 : outcome_facts := (mkFacts (Some 10) (Some 10) (Some 9) false true false None false false false None [] None None None None false [] [] [] [] [] [] None true true (Some 40) 2%nat 1%nat None None true false false false false).
+Definition wit_K8_pop2 : outcome_facts := (mkFacts (Some 10) (Some 10) (Some 9) false true false None false false false None [] None None None None false [] [] [] [] [] [] None true true (Some 40) 2%nat 1%nat None None true false false false false false false).
 Lemma refuted_K8_pop2 : wf_firing CStashPop wit_K8_pop2 = true /\ Known_C13 CStashPop wit_K8_pop2 = true /\
   erase_shas (effects wit_K8_pop2 (fst (hook_events (git_fires CStashPop wit_K8_pop2) (pre_state CStashPop)))) <>
   erase_shas (effects wit_K8_pop2 (wrap_events CStashPop wit_K8_pop2)).
 Proof. split; [vm_compute; reflexivity|]. split; [vm_compute; reflexivity|]. vm_compute. intro H; discriminate H. Qed.
-Definition wit_K8_drop_dirty : outcome_facts := (mkFacts (Some 10) (Some 10) (Some 9) false true false None false false false None [] None None None None false [] [] [] [] [] [] None true true (Some 40) 1%nat 0%nat None None true false false false false).
+Definition wit_K8_drop_dirty : outcome_facts := (mkFacts (Some 10) (Some 10) (Some 9) false true false None false false false None [] None None None None false [] [] [] [] [] [] None true true (Some 40) 1%nat 0%nat None None true false false false false false false).
 Lemma refuted_K8_drop_dirty : wf_firing CStashDrop wit_K8_drop_dirty = true /\ Known_C13 CStashDrop wit_K8_drop_dirty = true /\
   erase_shas (effects wit_K8_drop_dirty (fst (hook_events (git_fires CStashDrop wit_K8_drop_dirty) (pre_state CStashDrop)))) <>
   erase_shas (effects wit_K8_drop_dirty (wrap_events CStashDrop wit_K8_drop_dirty)).
 Proof. split; [vm_compute; reflexivity|]. split; [vm_compute; reflexivity|]. vm_compute. intro H; discriminate H. Qed.
-Definition wit_K9 : outcome_facts := (mkFacts (Some 10) (Some 10) (Some 9) false true false None false false false None [] None None None None false [] [] [] [] [] [] None true false None 0%nat 0%nat None (Some 50) false false false false false).
+Definition wit_K9 : outcome_facts := (mkFacts (Some 10) (Some 10) (Some 9) false true false None false false false None [] None None None None false [] [] [] [] [] [] None true false None 0%nat 0%nat None (Some 50) false false false false false false false).
 Lemma refuted_K9 : wf_firing CMergeSquash wit_K9 = true /\ Known_C13 CMergeSquash wit_K9 = true /\
   erase_shas (effects wit_K9 (fst (hook_events (git_fires CMergeSquash wit_K9) (pre_state CMergeSquash)))) <>
   erase_shas (effects wit_K9 (wrap_events CMergeSquash wit_K9)).
 Proof. split; [vm_compute; reflexivity|]. split; [vm_compute; reflexivity|]. vm_compute. intro H; discriminate H. Qed.
-Definition wit_K10 : outcome_facts := (mkFacts (Some 12) (Some 22) (Some 9) false true false None false false false None [] None (Some 5) (Some 5) None false [(11, 21); (12, 22)] [11; 12] [21; 22] [] [] [] None true false None 0%nat 0%nat None None true true false false false).
+Definition wit_K10 : outcome_facts := (mkFacts (Some 12) (Some 22) (Some 9) false true false None false false false None [] None (Some 5) (Some 5) None false [(11, 21); (12, 22)] [11; 12] [21; 22] [] [] [] None true false None 0%nat 0%nat None None true true false false false false false).
 Lemma refuted_K10 : wf_firing CRebase wit_K10 = true /\ Known_C13 CRebase wit_K10 = true /\
   erase_shas (effects wit_K10 (fst (hook_events (git_fires CRebase wit_K10) (pre_state CRebase)))) <>
   erase_shas (effects wit_K10 (wrap_events CRebase wit_K10)).
 Proof. split; [vm_compute; reflexivity|]. split; [vm_compute; reflexivity|]. vm_compute. intro H; discriminate H. Qed.
-Definition wit_K11 : outcome_facts := (mkFacts (Some 10) (Some 9) (Some 9) false true false None false false false None [] None None None None false [] [] [] [] [] [] (Some 9) true true None 0%nat 0%nat None None true false true false false).
+Definition wit_K11 : outcome_facts := (mkFacts (Some 10) (Some 9) (Some 9) false true false None false false false None [] None None None None false [] [] [] [] [] [] (Some 9) true true None 0%nat 0%nat None None true false true false false false false).
 Lemma refuted_K11 : wf_firing CResetSoft wit_K11 = true /\ Known_C13 CResetSoft wit_K11 = true /\
   erase_shas (effects wit_K11 (fst (hook_events (git_fires CResetSoft wit_K11) (pre_state CResetSoft)))) <>
   erase_shas (effects wit_K11 (wrap_events CResetSoft wit_K11)).
@@ -572,7 +625,7 @@ Proof.
 Qed.
 
 (* the leak makes the next command invisible: a fast-forward rebase followed by a commit *)
-Definition wit_commit_after : outcome_facts := (mkFacts (Some 20) (Some 21) (Some 20) false true false None false false false None [] None None None None false [] [] [] [] [] [] None true false None 0%nat 0%nat None None true false false false false).
+Definition wit_commit_after : outcome_facts := (mkFacts (Some 20) (Some 21) (Some 20) false true false None false false false None [] None None None None false [] [] [] [] [] [] None true false None 0%nat 0%nat None None true false false false false false false).
 Theorem sequences_leak_refuted :
   let cmds := [(CRebase, wit_K1_ff); (CCommit, wit_commit_after)] in
   Forall (fun x => wf_firing (fst x) (snd x) = true /\ Known_C13 (fst x) (snd x) = false) cmds /\
@@ -585,15 +638,15 @@ Proof.
 Qed.
 
 (* non-vacuity: classes where both translations produce the same non-empty effects *)
-Definition wit_rebase2 : outcome_facts := (mkFacts (Some 12) (Some 22) (Some 9) false true false None false false false None [] None (Some 5) (Some 5) None false [(11, 21); (12, 22)] [11; 12] [21; 22] [] [] [] None true false None 0%nat 0%nat None None true false false false false).
+Definition wit_rebase2 : outcome_facts := (mkFacts (Some 12) (Some 22) (Some 9) false true false None false false false None [] None (Some 5) (Some 5) None false [(11, 21); (12, 22)] [11; 12] [21; 22] [] [] [] None true false None 0%nat 0%nat None None true false false false false false false).
 Example nonvacuous_rebase : wf_firing CRebase wit_rebase2 = true /\ Known_C13 CRebase wit_rebase2 = false /\
   effects wit_rebase2 (wrap_events CRebase wit_rebase2) = [ERebaseComplete 12 22 false [11; 12] [21; 22]] /\
   effects wit_rebase2 (fst (hook_events (git_fires CRebase wit_rebase2) init)) = [ERebaseComplete 12 22 false [11; 12] [21; 22]].
 Proof. repeat split; vm_compute; reflexivity. Qed.
 
-Definition wit_amend : outcome_facts := (mkFacts (Some 10) (Some 11) (Some 9) false true false None false false false None [] None None None None false [] [] [] [] [] [] None true false None 0%nat 0%nat None None true false false false false).
+Definition wit_amend : outcome_facts := (mkFacts (Some 10) (Some 11) (Some 9) false true false None false false false None [] None None None None false [] [] [] [] [] [] None true false None 0%nat 0%nat None None true false false false false false false).
 Example nonvacuous_sequence :
-  let cmds := [(CCommit, wit_commit_after); (CCommitAmend, (mkFacts (Some 21) (Some 23) (Some 20) false true false None false false false None [] None None None None false [] [] [] [] [] [] None true false None 0%nat 0%nat None None true false false false false)); (CRebaseI, (mkFacts (Some 23) (Some 33) (Some 9) false true false None false false false None [] None (Some 5) (Some 5) None false [(23, 33)] [23] [33] [] [] [] None true false None 0%nat 0%nat None None true false false false false))] in
+  let cmds := [(CCommit, wit_commit_after); (CCommitAmend, (mkFacts (Some 21) (Some 23) (Some 20) false true false None false false false None [] None None None None false [] [] [] [] [] [] None true false None 0%nat 0%nat None None true false false false false false false)); (CRebaseI, (mkFacts (Some 23) (Some 33) (Some 9) false true false None false false false None [] None (Some 5) (Some 5) None false [(23, 33)] [23] [33] [] [] [] None true false None 0%nat 0%nat None None true false false false false false false))] in
   chained init cmds /\ Forall agreeing cmds /\
   erase_shas (run_wrap cmds) = [SPreCommitCheckpoint; SCommit true; SPreCommitCheckpoint; SCommitAmend; SRebaseComplete false 1 1].
 Proof.
@@ -601,3 +654,29 @@ Proof.
   - repeat constructor; vm_compute; reflexivity.
   - vm_compute; reflexivity.
 Qed.
+
+(* ------------------------------------------------------------------ pull --rebase with pending attribution *)
+(* K12: every local commit is skipped as already upstream (noop), an untracked agent file is pending, no autostash *)
+Definition wit_K12 : outcome_facts := (mkFacts (Some 10) (Some 20) (Some 9) false true false None false false false None [] None (Some 20) (Some 20) None false [] [10] [] [] [] [] None true false None 0%nat 0%nat None None true true false false false false false).
+Lemma refuted_K12 : wf_firing CPullRebase wit_K12 = true /\ Known_C13 CPullRebase wit_K12 = true /\
+  erase_shas (effects wit_K12 (fst (hook_events (git_fires CPullRebase wit_K12) (pre_state CPullRebase)))) <>
+  erase_shas (effects wit_K12 (wrap_events CPullRebase wit_K12)).
+Proof. split; [vm_compute; reflexivity|]. split; [vm_compute; reflexivity|]. vm_compute. intro H; discriminate H. Qed.
+
+(* the same pull with --autostash: both modes carry the pending attribution to the new HEAD, on the noop exit ... *)
+Definition wit_pull_noop_autostash : outcome_facts := (mkFacts (Some 10) (Some 20) (Some 9) false true false None false false false None [] None (Some 20) (Some 20) None false [] [10] [] [] [] [] None true false None 0%nat 0%nat None None true true false false false true false).
+Example pull_noop_autostash_agrees :
+  wf_firing CPullRebase wit_pull_noop_autostash = true /\ Known_C13 CPullRebase wit_pull_noop_autostash = false /\
+  effects wit_pull_noop_autostash (fst (hook_events (git_fires CPullRebase wit_pull_noop_autostash) init)) = [ERenameWorkingLog 10 20] /\
+  effects wit_pull_noop_autostash (wrap_events CPullRebase wit_pull_noop_autostash) = [ERenameWorkingLog 10 20].
+Proof. repeat split; vm_compute; reflexivity. Qed.
+
+(* ... and on the exit that rewrites commits *)
+Definition wit_pull_real_autostash : outcome_facts := (mkFacts (Some 10) (Some 21) (Some 9) false true false None false false false None [] None (Some 20) (Some 20) None false [(10, 21)] [10] [21] [] [] [] None true false None 0%nat 0%nat None None true true false false false true false).
+Example pull_real_autostash_agrees :
+  wf_firing CPullRebase wit_pull_real_autostash = true /\ Known_C13 CPullRebase wit_pull_real_autostash = false /\
+  effects wit_pull_real_autostash (fst (hook_events (git_fires CPullRebase wit_pull_real_autostash) init)) =
+    [ERenameWorkingLog 10 21; ERebaseComplete 10 21 false [10] [21]] /\
+  effects wit_pull_real_autostash (wrap_events CPullRebase wit_pull_real_autostash) =
+    [ERenameWorkingLog 10 21; ERebaseComplete 10 21 false [10] [21]].
+Proof. repeat split; vm_compute; reflexivity. Qed.
